@@ -32,7 +32,16 @@ Tie of the theorems of NxProps/C14.lean to the tree:
    NotImplemented for an implemented method), only stubs / unserved protocols yield NotImplemented, every one-way call reaches
    a registered handler's implementation exactly once with the arguments given; every instrumented RMCClient's requests / received
    datagrams / resumptions are replayed through the Lean call-matching machine (rpc_mixed_one_way_own_result,
-   one_way_request_has_its_own_call_id); failing sessions are shrunk before they are reported.
+   one_way_request_has_its_own_call_id); failing sessions are shrunk before they are reported;
+ * the NotImplemented clause for requests that CARRY parameters (harness/c14_notimpl.py): under every configuration of the module,
+   every method the definition marks unsupported, unknown method ids (0/1, max+1, max+1000, 2^32-1, one drawn) and unregistered
+   protocol ids (one-byte and extended form) as raw RMC requests with non-empty bodies (one byte, a u32, a hand-made stream, the
+   generated client's encoding of a sibling method's arguments, an encoded structure of the module, arbitrary bytes of 1..2048) ->
+   Core::NotImplemented whatever the body; EVERY supported method left at the generated stub through the generated client with
+   schema-directed arguments -> Core::NotImplemented, and as raw requests with that encoding plus trailing bytes / truncated /
+   one byte changed / arbitrary bytes, judged against a twin server that implements the method: the implementation reached ->
+   the stub server answers Core::NotImplemented, not reached (parameters undecodable) -> at least not a success; `dispatch`
+   (which has no body argument: not_supported / supported_runs) and `sreq` replayed through the driver.
 """
 import multiprocessing, os, time
 import vf
@@ -41,6 +50,7 @@ import schema_tie as T
 import schema_rpc as R
 import c14_wire as W14
 import c14_mixed as X14
+import c14_notimpl as N14
 from corr_C13 import obligations, proto_names
 
 LEVEL = "proof"
@@ -49,6 +59,7 @@ WIRE_CORE = ("ranking", "authentication", "matchmaking", "datastore")      # str
 
 
 def _run_task(t):
+    if t[0] == "notimpl": return N14.task(t[1])
     return W14.task(t[1]) if t[0] == "wire" else (X14.task(t[1]) if t[0] == "mixed" else R.task(t[1]))
 
 
@@ -72,9 +83,14 @@ def run(ctx):
                 "call id counters fresh and near the wrap) + one session per shipped profile over the simulated network: 12..30 calls per session — one-way calls directly in front of ordinary calls, "
                 "runs of one-way calls, mixed groups in flight together, implementations that push one-way calls to their caller, stubs, calls to a side that does not serve the protocol — "
                 "every call judged (values / NotImplemented / handler reached exactly once), every RMCClient's events replayed through the Lean call-matching machine. "
+                "requests that carry parameters to what is not implemented, per module x EVERY configuration x protocol with responses: every unsupported method, 5..6 unknown method ids, 2 unregistered protocol ids "
+                "as raw requests with %s non-empty bodies each (one byte, u32, hand-made stream, a sibling method's generated-client encoding, an encoded structure, arbitrary bytes) -> Core::NotImplemented; "
+                "every supported method at the generated stub through the generated client with schema-directed arguments and as %s raw variants of that encoding (trailing bytes; truncated / byte changed / arbitrary), "
+                "each judged against a twin server implementing the method (implementation reached => the stub server says Core::NotImplemented; otherwise no success). "
                 "distinct non-trivial = distinct (module, method or structure, configuration, repetition or splice) cases whose oracle held"
                 % ("1" if quick else "4", "8 (revision, extra bytes) splices" if quick else "every higher revision up to 255 and every extra length 1..16",
-                   "7 (4 fixed + 3 drawn)" if quick else "all", "6" if quick else "24", "8 (4 fixed + 4 drawn)" if quick else "all", "12" if quick else "48"))
+                   "7 (4 fixed + 3 drawn)" if quick else "all", "6" if quick else "24", "8 (4 fixed + 4 drawn)" if quick else "all", "12" if quick else "48",
+                   "up to 8 (3 arbitrary lengths drawn)" if quick else "up to 18 (arbitrary lengths 1,2,3,5,8,13,16,33,64,255,256,1024,2048)", "2" if quick else "4"))
     envs = {}
     for n in proto_names(repo):
         env, problem = load_env(protodir, repo, n)
@@ -114,8 +130,15 @@ def run(ctx):
         mixed_mods = core + ctx.rng.sample(rest, min(4, len(rest)))
     mixed_tasks = [("mixed", (repo, n, nr, ctx.seed, exe, 12 if quick else 48, W14.PROFILES if quick else W14.PROFILES * 3))
                    for n in mixed_mods for nr in one_way_mods]
+    # ---- non-empty parameter bodies to unsupported / unknown / unimplemented methods: every configuration of every module
+    ni_tasks = []
+    for n, env in sorted(envs.items()):
+        cfgs = T.module_configs(env)
+        size = 8 if quick else 4
+        for i in range(0, len(cfgs), size):
+            ni_tasks.append(("notimpl", (repo, n, cfgs[i:i + size], ctx.seed, exe, not quick)))
     # interleave: the long rpc slices first, the short wire / mixed sessions fill the gaps
-    tasks = tasks[:16] + wire_tasks + mixed_tasks + tasks[16:]
+    tasks = tasks[:16] + wire_tasks + mixed_tasks + tasks[16:] + ni_tasks
     mp = multiprocessing.get_context("fork")
     methods, fc_cases = {}, 0
     soft, hard, worker_errors = [], [], []
@@ -187,6 +210,9 @@ def run(ctx):
     ctx.extra["mixed_protocol_calls_ok"] = sum(c for t, c in ctx.tags.items() if t.startswith("mixed-call:"))
     ctx.extra["mixed_one_way_calls_ok"] = sum(c for t, c in ctx.tags.items() if t.startswith("mixed-call:") and ":nr:" in t)
     ctx.extra["mixed_call_matching_lines_replayed"] = ctx.tags.get("mixed:mux-lines", 0)
+    ctx.extra["not_implemented_requests_with_parameters"] = sum(c for t, c in ctx.tags.items() if t.startswith("notimpl-body:") and t.split(":")[1] in ("unsupported", "unknown-method", "unknown-protocol", "unimplemented"))
+    ctx.extra["not_implemented_stub_raw_variants"] = sum(c for t, c in ctx.tags.items() if t.startswith("notimpl-body:stub-raw:decodable:") or t.startswith("notimpl-body:stub-raw:undecodable:"))
+    ctx.extra["not_implemented_stub_raw_variants_reaching_an_implementation"] = sum(c for t, c in ctx.tags.items() if t.startswith("notimpl-body:stub-raw:decodable:"))
     ctx.extra["versioned_structures"] = sum(len([s for s in e.versioned() if s["name"] in e.structs]) for e in envs.values())
     ctx.extra["disagreements"] = len(hard) + len(soft)
     ctx.assumptions.append("in the per-method sweep the PRUDP layer between the two RMCClient instances is replaced by a pair of in-memory queues; the whole path (real PRUDP endpoints, "
